@@ -642,23 +642,26 @@ int main(int argc, char** argv) {
     }
     AddSuffix(TargName, STRINGSIZE, BinSuffix);
 
+    /* the files are measured even for an explicit range: the granularity
+       of the selected records scales the image */
+
     MaxGran = 1;
-    if ((StartAuto) || (StopAuto)) {
-        if (StartAuto) {
-            StartAdr = 0xfffffffful;
-        }
-        if (StopAuto) {
-            StopAdr = 0;
-        }
-        if (ProcessedEmpty(ParUnprocessed)) {
-            ProcessGroup(SrcName, MeasureFile);
-        } else {
-            for (z = 1; z < argc; z++) {
-                if (ParUnprocessed[z]) {
-                    ProcessGroup(argv[z], MeasureFile);
-                }
+    if (StartAuto) {
+        StartAdr = 0xfffffffful;
+    }
+    if (StopAuto) {
+        StopAdr = 0;
+    }
+    if (ProcessedEmpty(ParUnprocessed)) {
+        ProcessGroup(SrcName, MeasureFile);
+    } else {
+        for (z = 1; z < argc; z++) {
+            if (ParUnprocessed[z]) {
+                ProcessGroup(argv[z], MeasureFile);
             }
         }
+    }
+    if ((StartAuto) || (StopAuto)) {
         if (StartAdr > StopAdr) {
             errno = 0;
             fprintf(stderr, "%s\n", getmessage(Num_ErrMsgAutoFailed));
